@@ -108,6 +108,8 @@ where
     CS::Expander: for<'a> ExpandMsg<'a>,
 {
     let api_id = api_id.unwrap_or(&[]);
+    #[cfg(zkryptium_verif)]
+    crate::verif_hooks::gen_request(count, api_id);
 
     let seed_dst = [api_id, CS::GENERATOR_SEED_DST].concat();
     let generator_dst = [api_id, CS::GENERATOR_DST].concat();
